@@ -16,6 +16,7 @@ def run(res, tier, replay):
                 "hostile generators: first-block matches reaching before the stream start, undefined LZH length-list types")
     proofs_ok = vlib.coq_gate(res, "Properties_C11")
     robust.l2_szdd(res, tier, rng)
+    robust.l2_kwaj(res, tier, rng)
     ok, log, exe = vlib.build_impl("asan")
     if ok:
         q = tier == "quick"
